@@ -652,3 +652,40 @@ def id_alphabet(ctx, rep, rule):
                           "%s:%d id padded with zeros" % (f.module.relpath, c.lineno), f.qualname,
                           "`%s` pads the id with blanks" % src(c), "ids with blanks are not DOT identifiers")
     rep.need(rule, n, 1, "id templates")
+
+
+# ------------------------------------------------------------------ labels survive unchanged
+def labels_verbatim(ctx, rep, rule):
+    """what is drawn / listed as the label of a job is the text the user gave, unmodified: every value returned
+    by the label getters is the `label` attribute, what the user's text_label() / graph_label() returned,
+    the other getter's result, a constant placeholder, or one of these embedded in a format with the id"""
+    from ..graphmodel import GraphModel
+    r = ctx.roles
+    p = ctx.prog
+    getters = [f for n, f in r.jobbase.methods.items() if n.startswith('_get_') and n.endswith('_label')]
+    rep.need(rule, len(getters), 1, "label getters")
+    names = {f.name for f in getters}
+    hooks = ('text_label', 'graph_label')
+
+    def verbatim(t):
+        if t[0] == 'const':
+            return True
+        if T.is_attr(t, 'label') and t[1] == T.SELF:
+            return True
+        if t[0] == 'mcall' and t[1] == T.SELF and (t[2] in hooks or t[2] in names or t[2] == 'repr_id'):
+            return True
+        if t[0] == 'fmt':
+            return all(verbatim(x) for x in t[1])
+        if t[0] == 'binop' and t[1] == 'Add':
+            return verbatim(t[2]) and verbatim(t[3])
+        return False
+    n = 0
+    for f in getters:
+        an, ip, out = ctx.explore(f, model=GraphModel, no_inline=tuple(names) + hooks)
+        for st, val, node in out.ret:
+            n += 1
+            rep.check(verbatim(val), rule, "%s returns the user's text unmodified" % ip.where(node), f.qualname,
+                      "`%s` returns %s" % (src(node)[:80], T.show(val, 5)[:160]),
+                      "the label that is drawn or listed is not the label the user gave (characters dropped, "
+                      "replaced or re-flowed)", trace(st))
+    rep.need(rule + ":returns", n, 3, "returns of the label getters")
